@@ -28,7 +28,8 @@ var c01Domain = map[string][]string{
 	"name":    {"ascii", "space-quote", "ctrl", "badutf8", "u2028", "long255", "dash", "glob", "dots", "utf8"},
 	"content": {"empty", "one", "small", "zero512k", "multi", "sparse", "zeros-odd", "repeat"},
 	"target":  {"rel", "abs", "nonutf8", "dangling", "long", "newline", "dot", "trailing"},
-	"mode":    {"m644", "m000", "m755", "setuid", "setgid", "sticky", "all"},
+	"mode":    {"m644", "m000", "m755", "m500", "setuid", "setgid", "sticky", "all"},
+	"fill":    {"children", "empty", "only-empty-dir", "only-socket"},
 	"mtime":   {"epoch", "ns", "pre-epoch", "future", "one-ns", "min32"},
 	"xattr":   {"none", "text", "bin", "empty", "multi", "trusted", "big", "badname"},
 	"owner":   {"root", "user", "nobody"},
@@ -37,7 +38,7 @@ var c01Domain = map[string][]string{
 
 var c01Attrs = map[string][]string{
 	"file":     {"name", "content", "mode", "mtime", "xattr", "owner"},
-	"dir":      {"name", "mode", "mtime", "xattr", "owner"},
+	"dir":      {"name", "mode", "mtime", "xattr", "owner", "fill"},
 	"symlink":  {"name", "target", "mtime", "owner"},
 	"fifo":     {"name", "mode", "mtime", "owner"},
 	"chardev":  {"name", "rdev", "mode", "mtime", "owner"},
@@ -62,6 +63,7 @@ type c01Node struct {
 	Tree int               `json:"tree"`
 	path string            // relative path inside the source root
 	link string            // hardlink: relative path of the file it links to
+	place string           // dir: "top" / "nested" forces the level, "" = seeded choice
 }
 
 func c01Name(class string, idx int) string {
@@ -149,6 +151,8 @@ func c01Mode(class string) uint32 {
 	switch class {
 	case "m644":
 		return 0o644
+	case "m500":
+		return 0o500
 	case "m000":
 		return 0
 	case "m755":
@@ -276,6 +280,8 @@ func c01ProjectPath(p string) (c01Proj, error) {
 		pr.Type = "chardev"
 	case unix.S_IFBLK:
 		pr.Type = "blockdev"
+	case unix.S_IFSOCK:
+		pr.Type = "socket"
 	default:
 		pr.Type = "other"
 	}
@@ -329,7 +335,6 @@ func c01ProjectTree(root string) (map[string]*c01Proj, map[string][]string, erro
 		}
 		names := []string{}
 		for _, e := range ents {
-			names = append(names, c01Hex(e.Name()))
 			crel := filepath.Join(rel, e.Name())
 			if rel == "" {
 				crel = e.Name()
@@ -338,6 +343,10 @@ func c01ProjectTree(root string) (map[string]*c01Proj, map[string][]string, erro
 			if err != nil {
 				return err
 			}
+			if pr.Type == "socket" {
+				continue // sockets are backed up as nodes but restore does not recreate them: not part of the comparison
+			}
+			names = append(names, c01Hex(e.Name()))
 			nodes[crel] = &pr
 			if pr.Type == "dir" {
 				if err := walk(crel); err != nil {
@@ -392,6 +401,9 @@ func c01Materialise(root string, nodes []*c01Node) {
 	sort.SliceStable(dirs, func(i, j int) bool { return strings.Count(dirs[i].path, "/") < strings.Count(dirs[j].path, "/") })
 	for _, n := range dirs {
 		c01Must(os.Mkdir(filepath.Join(root, n.path), 0o755), "mkdir")
+		if n.A["fill"] == "only-socket" {
+			c01Must(unix.Mknod(filepath.Join(root, n.path, "sock"), unix.S_IFSOCK|0o600, 0), "mknod socket")
+		}
 	}
 	// hardlinks last
 	sort.SliceStable(others, func(i, j int) bool { return others[i].Kind != "hardlink" && others[j].Kind == "hardlink" })
@@ -452,7 +464,13 @@ func c01Materialise(root string, nodes []*c01Node) {
 
 func c01GenTable(rng *rand.Rand) []*c01Node {
 	var tab []*c01Node
-	pick := func(a string) string { d := c01Domain[a]; return d[rng.Intn(len(d))] }
+	pick := func(a string) string {
+		d := c01Domain[a]
+		if a == "fill" && rng.Intn(4) != 0 {
+			return "children" // most directories must be able to hold the other entries
+		}
+		return d[rng.Intn(len(d))]
+	}
 	mk := func(kind string, fixed map[string]string) *c01Node {
 		n := &c01Node{Kind: kind, A: map[string]string{}}
 		for _, a := range c01Attrs[kind] {
@@ -541,23 +559,68 @@ func c01Layout(tab []*c01Node, rng *rand.Rand, perTree int) [][]*c01Node {
 			i++
 		}
 	}
+	// every tree additionally gets directories none of whose children is restored: an empty directory at the
+	// top level, a nested empty directory, a directory whose only child is an empty directory and a directory
+	// that holds only a socket -- all with non-default mode, old mtime and xattrs
+	fix := func(fill, place string) *c01Node {
+		pick := func(l ...string) string { return l[rng.Intn(len(l))] }
+		return &c01Node{Kind: "dir", place: place, A: map[string]string{"fill": fill,
+			"name": c01Domain["name"][rng.Intn(len(c01Domain["name"]))], "mode": pick("m755", "m500", "sticky", "setgid"),
+			"mtime": pick("epoch", "ns", "pre-epoch", "one-ns", "min32"), "xattr": pick("text", "bin", "empty", "multi", "trusted", "big"),
+			"owner": c01Domain["owner"][rng.Intn(3)]}}
+	}
+	for ti := range trees {
+		trees[ti] = append(trees[ti], fix("empty", "top"), fix("empty", "nested"), fix("only-empty-dir", ""), fix("only-socket", ""))
+	}
 	idx := 0
-	for ti, tr := range trees {
-		var d1, d2 []string // directories at depth 1 and 2 (relative paths)
+	for ti := range trees {
+		// a directory whose only child is an empty directory: the child is a table node of its own
+		var extra []*c01Node
+		for _, n := range trees[ti] {
+			if n.Kind == "dir" && n.A["fill"] == "only-empty-dir" {
+				c := fix("empty", "")
+				c.link = "child-of" // resolved below
+				extra = append(extra, n, c)
+			}
+		}
+		childOf := map[*c01Node]*c01Node{}
+		for i := 0; i+1 < len(extra); i += 2 {
+			childOf[extra[i+1]] = extra[i]
+			trees[ti] = append(trees[ti], extra[i+1])
+		}
+		tr := trees[ti]
+		var d1, d2 []string // directories at depth 1 and 2 (relative paths) that may receive children
 		for _, n := range tr {
 			idx++
 			n.Idx, n.Tree = idx, ti
-			if n.Kind != "dir" {
+		}
+		for _, n := range tr {
+			if n.Kind != "dir" || childOf[n] != nil {
 				continue
 			}
 			name := c01Name(n.A["name"], n.Idx)
-			if len(d1) > 0 && rng.Intn(2) == 0 {
+			nested := len(d1) > 0 && rng.Intn(2) == 0
+			if n.place == "top" {
+				nested = false
+			} else if n.place == "nested" && len(d1) > 0 {
+				nested = true
+			}
+			holder := n.A["fill"] == "children"
+			if nested {
 				n.path = filepath.Join(d1[rng.Intn(len(d1))], name)
-				d2 = append(d2, n.path)
+				if holder {
+					d2 = append(d2, n.path)
+				}
 			} else {
 				n.path = name
-				d1 = append(d1, n.path)
+				if holder {
+					d1 = append(d1, n.path)
+				}
 			}
+		}
+		for c, par := range childOf {
+			c.link = ""
+			c.path = filepath.Join(par.path, c01Name(c.A["name"], c.Idx))
 		}
 		alld := append(append([]string{""}, d1...), d2...)
 		var files []string
